@@ -205,6 +205,10 @@ def run(ctx):
         out.evaluations += len(c["log"])
         for i, (tag, text, finding) in fails:
             out.fail(dict(cfg=c["cfg"], log=c["log"][: i + 1]), f"[{tag}] {text}", step=steps[-1].as_dict(), finding=finding)
+    # every single copy operation with every `before` on every small forest (source tree: two top nodes, one with a child)
+    _hist.exhaustive_single_ops(ctx, out, judge, max_nodes=3 if ctx.thorough else 2, alphabet=[0, 1, 6],
+                                ops_of=lambda impl, ti: [o for o in _hist.all_single_ops(impl, ti, labels=[0, 6]) if o["op"] in COPY_OPS],
+                                label_limit=4 if ctx.thorough else 2)
     campaign(ctx, out, 1200 if ctx.thorough else 140, 60 if ctx.thorough else 25)
     return out
 
